@@ -12,7 +12,9 @@ package c14
 import (
 	"encoding/json"
 	"fmt"
+	"github.com/aergoio/aergo/v2/contract/system"
 	"github.com/aergoio/aergo/v2/pkg/component"
+	"github.com/aergoio/aergo/v2/state/statedb"
 	"github.com/aergoio/aergo/v2/types/message"
 	"math/big"
 	"regexp"
@@ -493,13 +495,19 @@ func TestC14Admission(t *testing.T) {
 				t.Fatalf("producing / connecting a block of admitted transactions panicked: %v\nat %s\ntxs: %s\n%s", pp, panicSite(st), strings.Join(descs, " | "), st)
 			}
 			if p2 != nil {
-				N.SwitchTo()
+				// (no context switch here: the node keeps running with what connecting the block left in memory)
 				mp2 := mempool.VerifNew(N.CS.VerifCfg(), N.CS, p2.Block)
 				hub2 := component.NewComponentHub()
 				hub2.Register(vnode.NewFDAnswerer(N), mp2, vnode.NewRec(message.P2PSvc), vnode.NewRec(message.RPCSvc), vnode.NewRec(message.SyncerSvc))
 				d2, err := N.DumpAt(p2.Block.GetHeader().GetBlocksRootHash())
 				if err != nil {
 					t.Fatal(err)
+				}
+				// the parameters the node now works with are those a node restarted on this state would load
+				if scs, err := statedb.GetSystemAccountState(N.CS.SDB().OpenNewStateDB(p2.Block.GetHeader().GetBlocksRootHash())); err == nil {
+					if diff := system.VerifParamsMatchState(scs); diff != "" {
+						t.Fatalf("after the block [%s] was connected the active system parameters differ from the stored ones: %s", strings.Join(descs, " | "), diff)
+					}
 				}
 				cid2 := mp2.VerifAcceptChainIDHash()
 				var ordinary []*types.Tx
@@ -512,6 +520,15 @@ func TestC14Admission(t *testing.T) {
 						{Kind: "votedao", From: u, Nonce: n + 4, Type: types.TxType_GOVERNANCE, Recipient: []byte(types.AergoSystem), Amount: new(big.Int), Payload: vnode.CallInfo("v1voteDAO", "BPCOUNT", "3")},
 						{Kind: "name", From: u, Nonce: n + 5, Type: types.TxType_GOVERNANCE, Recipient: []byte(types.AergoName), Amount: vnode.Aergo, Payload: vnode.CallInfo("v1createName", fmt.Sprintf("round2name%02d", u))},
 					}
+					if u == 2 {
+						// a very small stake and a vote with it (possible once the staking minimum was voted down)
+						specs = []*vnode.TxSpec{
+							{Kind: "tiny-stake", From: u, Nonce: n + 1, Type: types.TxType_GOVERNANCE, Recipient: []byte(types.AergoSystem), Amount: big.NewInt(50), Payload: vnode.CallInfo("v1stake")},
+							{Kind: "tiny-vote", From: u, Nonce: n + 2, Type: types.TxType_GOVERNANCE, Recipient: []byte(types.AergoSystem), Amount: new(big.Int), Payload: vnode.CallInfo("v1voteDAO", "GASPRICE", "50000000000")},
+							specs[0], specs[1],
+						}
+						specs[2].Nonce, specs[3].Nonce = n+3, n+4
+					}
 					for _, sp := range specs {
 						tx := sp.Build(cid2)
 						var aerr error
@@ -521,6 +538,28 @@ func TestC14Admission(t *testing.T) {
 						}
 						if aerr == nil {
 							ordinary = append(ordinary, tx)
+							if strings.HasPrefix(sp.Kind, "tiny-") {
+								classes["round2-"+sp.Kind+"-admitted"] = true
+							}
+						} else if u == 2 && sp.Kind == "tiny-stake" {
+							if daoFocus && daoIssue == "STAKINGMIN" && daoValue == "1" && daoAdmitted == 2 {
+								rec.Label("tiny stake refused after STAKINGMIN=1 vote: " + aerr.Error())
+							}
+							// refused (the staking minimum is what it was): go on with ordinary traffic from the same nonce
+							specs[2].Nonce, specs[3].Nonce = n+1, n+2
+							specs = append(specs[:0:0], specs[2], specs[3])
+							for _, sp2 := range specs {
+								tx2 := sp2.Build(cid2)
+								var e2 error
+								if pp, st := guard(func() { e2 = mp2.VerifAdmit(tx2) }); pp != nil {
+									t.Fatalf("after the block [%s] was connected, admission of an ordinary %s transaction panicked: %v\nat %s\n%s", strings.Join(descs, " | "), sp2.Kind, pp, panicSite(st), st)
+								}
+								if e2 != nil {
+									break
+								}
+								ordinary = append(ordinary, tx2)
+							}
+							break
 						} else {
 							break // later nonces of this sender would only wait
 						}
@@ -534,6 +573,45 @@ func TestC14Admission(t *testing.T) {
 					}
 				}
 				classes[fmt.Sprintf("round2-ordinary-admitted=%d", min(len(ordinary), 5))] = true
+				// (4) one block later: the account that could stake a tiny amount votes with it
+				if classes["round2-tiny-stake-admitted"] {
+					var p3 *vnode.Produced
+					pp, st := guard(func() {
+						var err error
+						p3, err = N.Produce(p2.Block, p2.Block.GetHeader().GetTimestamp()+1e9, ordinary, nil)
+						if err == nil {
+							err = N.AddOwn(p3)
+						}
+						if err != nil {
+							p3 = nil
+						}
+					})
+					if pp != nil {
+						t.Fatalf("producing / connecting the block of ordinary transactions panicked: %v\nat %s\n%s", pp, panicSite(st), st)
+					}
+					if p3 != nil {
+						mp3 := mempool.VerifNew(N.CS.VerifCfg(), N.CS, p3.Block)
+						hub3 := component.NewComponentHub()
+						hub3.Register(vnode.NewFDAnswerer(N), mp3, vnode.NewRec(message.P2PSvc), vnode.NewRec(message.RPCSvc), vnode.NewRec(message.SyncerSvc))
+						d3, err := N.DumpAt(p3.Block.GetHeader().GetBlocksRootHash())
+						if err != nil {
+							t.Fatal(err)
+						}
+						sp := &vnode.TxSpec{Kind: "tiny-vote", From: 2, Nonce: d3.Nonce(vnode.KeyN(2).Addr) + 1, Type: types.TxType_GOVERNANCE, Recipient: []byte(types.AergoSystem), Amount: new(big.Int), Payload: vnode.CallInfo("v1voteDAO", "GASPRICE", "50000000000")}
+						tx := sp.Build(mp3.VerifAcceptChainIDHash())
+						var aerr error
+						if pp, st := guard(func() { aerr = mp3.VerifAdmit(tx) }); pp != nil {
+							t.Fatalf("admission of a parameter vote by an account with a tiny stake panicked: %v\nat %s\n%s", pp, panicSite(st), st)
+						}
+						if aerr == nil {
+							classes["round3-tiny-vote-admitted"] = true
+							vb3 := N.NewVBlock(p3.Block.GetHeader().GetBlocksRootHash(), p3.Block.BlockNo()+1, p3.Block.GetHeader().GetTimestamp()+1e9, contract.ChainService)
+							if out := vb3.Apply(tx); out.Panic != nil {
+								t.Fatalf("after [%s] took effect, a parameter vote by an account that staked 50 aer passed pool admission and panicked in execution: %v\nat %s\n%s", strings.Join(descs, " | "), out.Panic, panicSite(out.Stack), out.Stack)
+							}
+						}
+					}
+				}
 			}
 		}
 		var cl []string
